@@ -244,7 +244,7 @@ Section Calls.
     holds im (gbk_loop true im ks kid) w (post w (fun r _ => r = gbk_find ks kid)).
   Proof.
     induction ks as [|k r IH]; intros w H V K; simpl gbk_loop.
-    - apply holds_nop, holds_nop. apply post_ret; [exact H | constructor | reflexivity].
+    - apply holds_nop, holds_nop, holds_nop. apply post_ret; [exact H | constructor | reflexivity].
     - inversion V as [|? ? Vk Vr]; subst. apply holds_nop, holds_nop.
       eapply post_bind; [apply kidp_kidded; auto; apply K; left; reflexivity | constructor |].
       intros x w1 H1 R1 [E K1]. subst x. simpl gbk_find.
